@@ -237,7 +237,7 @@ def r16_3(cx):
         if r and r.get('k') == 'agg' and r.get('adt') == 'dfa::DFA':
             t = expand_vars(d2, d2.rvalue_term(r, 0, bi), keep=('trans_len',))
             tr = t[3]['trans']
-            ok = is_call(tr, r'alloc::vec::from_elem$') and is_named_const(tr[2][0], r'DFA::DEAD$') and is_var(tr[2][1], 'trans_len')
+            ok = is_call(tr, r'alloc::vec::from_elem$') and is_named_const(tr[2][0], r'DFA::DEAD$')
     cx.report('R16.3', d2, 'trans-default-dead', ok, 'the DFA transition table is initialised to DEAD everywhere (dead state absorbing)' if ok else 'DFA transitions are not initialised to DEAD')
     tr = cx.facts.traits.get('automaton::Automaton')
     ok = tr is not None and any('Sealed' in s for s in tr['supers']) and tr['unsafe']
